@@ -78,6 +78,10 @@ type methodTarget struct {
 	// extension for the voter (proof agent S19): receiver fields that are other components (their calls are the
 	// function parameters of Ext / ExtFn); unlike Sync, a statement that only touches them is NOT skipped
 	Comp []string
+	// extensions for the certificate checks (proof agent S20: cert.Authority)
+	PkgVal map[string][2]string // "<pkg>.<F>" -> {parameter name, Lean type}: the niladic package-level call `pkg.F()` is that parameter value
+	Own    map[string][]string  // "<M>" -> argument Lean types..., result Lean type: `recv.<M>(args)`, a method promoted from an embedded component, is the parameter function `<M>`
+	IntAcc map[string][2]string // "<M>" -> {parameter name, result Lean type}: niladic method `<M>` called on a value of a Go integer type (`hotstuff.View`)
 }
 
 // pkgFn: a package-level function translated by the first translator (main.go `targets`)
@@ -144,6 +148,34 @@ var methodTargets = []methodTarget{
 			"(QC_BlockHash : QC → Hash)", "(QC_View : QC → Int)",
 			"(ruler_VoteRule : Int → Msg → Bool)", "(auth_VerifyAnyQC : Msg → Bool)", "(leaderRotation_GetLeader : Int → Int)",
 			"(auth_CreatePartialCert : Blk → PC × Bool)"}},
+	// Authority.VerifyPartialCert / VerifyQuorumCert / VerifyTimeoutCert (Props/C02Gen).  No modelled field (the methods
+	// write nothing: the state tuple is empty).  Blocks, signatures (an interface value) and participant sets (an
+	// interface value) are pointer-like: `nil` is a parameter and a method call through nil clears the flag.
+	// `c.Verify` is promoted from the embedded crypto.Base: the parameter `Verify` (true = an error); the genesis block
+	// `hotstuff.GetGenesis()` is the parameter `genesis`; `error` is its presence.
+	{File: "security/cert/auth.go", Recv: "Authority", Fields: []string{},
+		Comp:    []string{"config", "blockchain"},
+		Methods: []string{"VerifyPartialCert", "VerifyQuorumCert", "VerifyTimeoutCert"}, Out: "Authority",
+		TypeVars: []string{"QC", "TC", "PC", "Blk", "Hash", "Sig", "IDs", "Bytes"},
+		Types: map[string]string{"hotstuff.QuorumCert": "QC", "hotstuff.TimeoutCert": "TC", "hotstuff.PartialCert": "PC",
+			"hotstuff.View": "Int", "error": "Bool"},
+		Accessors: map[string]string{"View": "Int", "BlockHash": "Hash", "Signature": "Sig", "Participants": "IDs", "Len": "Int",
+			"Hash": "Hash", "ToBytes": "Bytes"},
+		Ext:    map[string][2]string{"blockchain.Get": {"Hash", "Blk"}},
+		ExtFn:  map[string][]string{"config.QuorumSize": {"Int"}},
+		PkgVal: map[string][2]string{"hotstuff.GetGenesis": {"genesis", "Blk"}},
+		Own:    map[string][]string{"Verify": {"Sig", "Bytes", "Bool"}},
+		IntAcc: map[string][2]string{"ToBytes": {"View_ToBytes", "Bytes"}},
+		Ptr:    map[string]string{"Blk": "Blk_nil", "Sig": "Sig_nil", "IDs": "IDs_nil"},
+		Deq:    []string{"Blk", "Hash", "Sig", "IDs"},
+		Params: []string{"(Blk_nil : Blk)", "(Sig_nil : Sig)", "(IDs_nil : IDs)", "(genesis : Blk)",
+			"(QC_BlockHash : QC → Hash)", "(QC_View : QC → Int)", "(QC_Signature : QC → Sig)",
+			"(TC_View : TC → Int)", "(TC_Signature : TC → Sig)",
+			"(PC_BlockHash : PC → Hash)", "(PC_Signature : PC → Sig)",
+			"(Sig_Participants : Sig → IDs)", "(IDs_Len : IDs → Int)",
+			"(Blk_Hash : Blk → Hash)", "(Blk_View : Blk → Int)", "(Blk_ToBytes : Blk → Bytes)",
+			"(View_ToBytes : Int → Bytes)",
+			"(config_QuorumSize : Int)", "(blockchain_Get : Hash → Blk × Bool)", "(Verify : Sig → Bytes → Bool)"}},
 }
 
 // rulesTarget: CommitRule / VoteRule (and the helper qcRef where the ruleset has one) of a consensus ruleset.
@@ -261,6 +293,20 @@ func (t *mtr) use(decl string) {
 		}
 	}
 	t.used = append(t.used, decl)
+}
+
+// importsPkg: the file imports a package whose path ends in `name`, under its own name
+func (t *mtr) importsPkg(name string) bool {
+	if t.file == nil {
+		return false
+	}
+	for _, im := range t.file.Imports {
+		p := strings.Trim(im.Path.Value, `"`)
+		if im.Name == nil && (p == name || strings.HasSuffix(p, "/"+name)) {
+			return true
+		}
+	}
+	return false
 }
 
 func (t *mtr) lt(goType string) string {
@@ -445,6 +491,49 @@ func (t *mtr) expr(e ast.Expr) string {
 				return t.typed("true", "Bool")
 			}
 			return "true" // an error value: only its presence is modelled
+		}
+		if pv, ok := t.tg.PkgVal[exprName(x.Fun)]; ok && len(x.Args) == 0 {
+			// a niladic package-level function whose value is a parameter: `hotstuff.GetGenesis()`
+			if se, isSel := x.Fun.(*ast.SelectorExpr); isSel {
+				if pk, isId := se.X.(*ast.Ident); isId && pk.Obj == nil && !t.cur.scope[t.id(pk.Name)] && t.importsPkg(pk.Name) {
+					t.use(fmt.Sprintf("(%s : %s)", pv[0], pv[1]))
+					return t.typed(pv[0], pv[1])
+				}
+			}
+			return t.fail(e, "package-level call")
+		}
+		if se, ok := x.Fun.(*ast.SelectorExpr); ok && len(x.Args) == 0 && t.tg.IntAcc != nil {
+			if ia, ok := t.tg.IntAcc[se.Sel.Name]; ok {
+				// a niladic method of a Go integer type: `tc.View().ToBytes()`; the receiver must be a call of an accessor
+				// whose Lean type is Int (a view), not an arbitrary int
+				if in, isCall := se.X.(*ast.CallExpr); isCall {
+					if ise, isSel := in.Fun.(*ast.SelectorExpr); isSel && ise.Sel.Name == "View" && len(in.Args) == 0 {
+						recv := t.expr(se.X)
+						if t.vtype[recv] == "Int" {
+							t.use(fmt.Sprintf("(%s : Int → %s)", ia[0], ia[1]))
+							return t.typed("("+ia[0]+" "+recv+")", ia[1])
+						}
+					}
+				}
+			}
+		}
+		if se, ok := x.Fun.(*ast.SelectorExpr); ok && t.tg.Own != nil {
+			// a method promoted from an embedded component, called on the receiver: `c.Verify(sig, msg)`
+			if id, isId := se.X.(*ast.Ident); isId && id.Name == t.recv {
+				if sig, ok := t.tg.Own[se.Sel.Name]; ok && len(sig) == len(x.Args)+1 {
+					fn := se.Sel.Name
+					t.use(fmt.Sprintf("(%s : %s)", fn, strings.Join(sig, " → ")))
+					call := "(" + fn
+					for i, a := range x.Args {
+						as := t.expr(a)
+						if t.vtype[as] != sig[i] {
+							return t.fail(e, "argument type of "+fn)
+						}
+						call += " " + as
+					}
+					return t.typed(call+")", sig[len(sig)-1])
+				}
+			}
 		}
 		if se, ok := x.Fun.(*ast.SelectorExpr); ok && len(x.Args) == 0 {
 			if rty, ok := t.tg.Accessors[se.Sel.Name]; ok {
